@@ -1,7 +1,8 @@
 SPEC = dict(
     id="C14",
     props_file="Props/C14.v",
-    harness=[dict(pkg="pruner", test="TestVerifC14", timeout=600, timeout_thorough=2400)],
+    harness=[dict(pkg="pruner", test="TestVerifC14", timeout=600, timeout_thorough=2400),
+             dict(pkg="share/availability/full", test="TestVerifC14Full", timeout=600, timeout_thorough=1200)],
     allowed_axioms=[],
     level_text=("Machine-checked theorems (Coq, no axioms) over an executable model of the pruner: findPruneableHeaders (estimate from the "
                 "configured block time, extension loop, cut), the prune cycle (lastPruned, retryFailed, batch loop with maxHeadersPerLoop, "
@@ -16,7 +17,8 @@ SPEC = dict(
                 "whatever the header store deletes (its safety is the store's obligation); the global completeness theorem covers "
                 "histories without header deletion, the per-cycle theorem covers any state, including a header-store tail that overtook the "
                 "checkpoint (with fix-c14-2 the block at the new tail is pruned too; before it that block was skipped for good); the archival/pruned store effect of "
-                "Pruner.Prune itself (RemoveQ4 vs RemoveODSQ4) is not part of this model (store properties C05/C07)."),
+                "Pruner.Prune itself (archival: only the parity quadrant goes and every sample is still served and verifies; pruned and "
+                "archival-then-pruned: the block goes; idempotent) is checked by an implementation oracle on the real store only, not modelled."),
     rule=("one case = one history on the real Service: header chain of 1..50 heights (tail 1, small or large) with regular, faster, slower or "
           "irregular block times (equal timestamps, gaps; 10% non-monotone), window placed so the cutoff falls inside the chain (+-1, +-block "
           "time) or covering nothing / everything / zero, batch limit 2..8 (5%: 512), failure script per height and attempt (none, transient, "
